@@ -420,6 +420,15 @@ class _Normalise(ast.NodeTransformer):
             return self.visit(ast.copy_location(loop, node))
         return node
 
+    def visit_Try(self, node):
+        # `try: (try: A except E: H) finally: F`  ->  `try: A except E: H finally: F`   (the language defines the three-part statement as this nesting)
+        self.generic_visit(node)
+        if node.finalbody and not node.handlers and not node.orelse and len(node.body) == 1 and isinstance(node.body[0], ast.Try) and not node.body[0].finalbody \
+                and type(node.body[0]) is type(node):
+            inner = node.body[0]
+            return ast.copy_location(ast.Try(body=inner.body, handlers=inner.handlers, orelse=inner.orelse, finalbody=node.finalbody), node)
+        return node
+
     def visit_With(self, node):
         # `with contextlib.suppress(E1, E2): body`  ->  `try: body  except (E1, E2): pass`  (what it means; error-discipline rules judge the handler)
         self.generic_visit(node)
